@@ -589,6 +589,34 @@ func genRecs(r *rand.Rand, n int, uniqueTS bool) []MemRec {
 
 var allOps = []string{"eq", "neq", "re", "nre"}
 
+// withTwins follows some records by a twin: the same instant, the same line, other attributes.  Two entries that a
+// stage makes equal (drop, keep, a rename) are still two entries.
+func withTwins(r *rand.Rand, recs []MemRec) []MemRec {
+	out := make([]MemRec, 0, len(recs)+4)
+	for _, rec := range recs {
+		out = append(out, rec)
+		for r.Intn(3) == 0 {
+			tw := rec
+			tw.Attrs = append([][2][]int{}, rec.Attrs...)
+			switch r.Intn(3) {
+			case 0:
+				tw.Attrs = append(tw.Attrs, [2][]int{B("twin"), B(pick(r, []string{"1", "2"}))})
+			case 1:
+				if len(tw.Attrs) > 0 {
+					tw.Attrs = tw.Attrs[1:]
+				} else {
+					tw.Attrs = append(tw.Attrs, [2][]int{B("app"), B("web")})
+				}
+			} // default: an exact twin
+			out = append(out, tw)
+		}
+	}
+	for i := range out {
+		out[i].ID = i + 1
+	}
+	return out
+}
+
 func randSubset(r *rand.Rand) []string {
 	out := []string{}
 	for _, o := range allOps {
@@ -607,6 +635,9 @@ func genLogq(r *rand.Rand, mode string) logqIn {
 		n = r.Intn(60)
 	}
 	in.Recs = genRecs(r, n, true)
+	if mode == "select" && r.Intn(5) == 0 {
+		in.Recs = withTwins(r, in.Recs)
+	}
 	// 0-3 selector matchers; several on one label with the same operator are a conjunction, not a repetition
 	nm := []int{0, 0, 0, 0, 1, 1, 1, 2, 2, 3}[r.Intn(10)]
 	for k := 0; k < nm; k++ {
